@@ -73,6 +73,9 @@ func RefOmit(t *TSpec, v Val) bool {
 	if u.Kind.IsNull() {
 		return v.Nil
 	}
+	if u.Kind == KUnsup {
+		return true
+	}
 	panic("RefOmit: kind " + string(u.Kind))
 }
 
